@@ -462,9 +462,34 @@ def r9(ctx, facts):
         raise AnchorLost("no call of Session::use_keyspace with a name taken from a SET_KEYSPACE response found")
 
 
+def r10(ctx, facts):
+    r = ctx.rule("R10", "a pool never forgets the keyspace it was told: PoolRefiller.current_keyspace is set by use_keyspace (and at construction) and never cleared", floor=2)
+    from ..util import field_writers
+    PR = "scylla::network::connection_pool::PoolRefiller"
+    w = sorted(field_writers(facts, PR, ["current_keyspace"]))
+    for key, field, how in w:
+        if how in ("borrow", "read", "move-out"):
+            continue
+        ok = key.endswith(("PoolRefiller::new", "PoolRefiller::use_keyspace")) or "PoolRefiller::new" in key or "PoolRefiller::use_keyspace" in key
+        r.instance("keyspace-writer:%s:%s" % (key, how), ok,
+                   "PoolRefiller.current_keyspace is written (%s) in %s: only use_keyspace and the constructor may set it. Clearing it (e.g. after one rejected USE on a fresh connection) makes every later "
+                   "refill connection of the pool go into service without any keyspace, long after use_keyspace() returned Ok" % (how, key))
+    # no store of None into the field anywhere
+    for b in facts.bodies.mentioning('"current_keyspace"'):
+        if b.crate != "scylla" or "::promoted[" in b.path:
+            continue
+        for bb in sorted(b.live_blocks):
+            for st in b.stmts(bb):
+                if st[0] == "A" and st[1][1] and any(isinstance(e, list) and e[0] == "f" and e[2] == "current_keyspace" for e in st[1][1]):
+                    none = st[2][0] == "agg" and st[2][1][0] == "adt" and st[2][1][2] == "None"
+                    r.instance("keyspace-never-cleared:" + fn_short(b.path), not none, "current_keyspace is reset to None", b.stmt_span(st))
+    if not w:
+        raise AnchorLost("no writer of PoolRefiller.current_keyspace found")
+
+
 def check(ctx):
     facts = inline_view(ctx.facts("default"))
-    for fn in (r1, r2, r3, r4, r5, r6, r7, r8, r9):
+    for fn in (r1, r2, r3, r4, r5, r6, r7, r8, r9, r10):
         try:
             fn(ctx, facts)
         except AnchorLost as ex:
